@@ -26,6 +26,15 @@ D: * OdtContent.iterate_units (real method, objects built in memory) against the
      (isolated-history workers, one per extension) and compared with its extraction after all other formats;
      generated ODT carry pictures of 14 kinds typed through the host MIME registry; generated PDFs (own minimal writer)
      carry image XObjects over colour-space form x caption form x object generation (0, 1, 7, 65534, random).
+   * targeted history pairs B -> A for formats whose extractors share a module that holds state (lru_cache, `global`,
+     mutated module-level containers, self-mutating module-level instances: ast inventory `stateful_modules`);
+   * host MIME database: every input again under an emptied and under a hostile mimetypes database;
+   * every result scanned for address-like tokens ("at 0x...", "<... object at", IndirectObject(n, g, id));
+   * generated PDFs also vary /Filter (name, array, indirect reference); PdfImage.color_space is compared with the Coq
+     model of the stripping pattern applied to str() of the raw pypdf value (correspondence).
+   X stringification sites (str()/repr()/format()/f-string/% of a non-primitive operand outside log / raise / lookup
+     contexts): stripped / exception / reviewed / OBJECT (fails closed); the stripping pattern constants must equal the
+     modelled pattern.  X reads of the process-global MIME database outside router.py are findings.
    X process-global writes: setter-like calls / stores / in-place mutations on standard-library modules (obligation:
      none; theorem C06_history_independent), third-party monkey patches and `global` statements are listed only.
    X observer stores: every method/property of every class of data_types.py (initialisers, setters excepted), with a
@@ -734,6 +743,272 @@ def inventory_global_writes(pkg: Pkg):
     return out
 
 
+PRIM_CALLS = {"int", "len", "float", "round", "sum", "min", "max", "abs", "ord", "hex", "bool", "chr", "str", "repr", "hash"}
+STR_METHODS = {"strip", "lstrip", "rstrip", "lower", "upper", "title", "join", "replace", "decode", "format", "capitalize",
+               "casefold", "zfill", "ljust", "rjust", "center", "expandtabs", "removeprefix", "removesuffix", "isoformat",
+               "strftime", "hexdigest", "as_posix", "group", "hex"}
+LOOKUP_FUNCS = {"find", "findall", "iter", "iterfind", "findtext", "get", "lookup", "startswith", "endswith", "compile",
+                "match", "search", "fullmatch", "getattr", "hasattr", "exists", "read", "open", "read_xml_root", "read_text",
+                "read_bytes", "index", "count", "split", "rsplit", "partition", "pop", "setdefault", "isinstance"}
+PRIM_ANNOT = {"str", "int", "float", "bool", "bytes", "None", "Optional[str]", "Optional[int]", "str | None", "int | None",
+              "float | None", "bool | None", "Optional[float]", "Optional[bool]"}
+
+
+def inventory_stringify(pkg: Pkg):
+    """Every place in sharepoint2text/parsing/extractors where an object is turned into text -- str(x), repr(x),
+    format(x), an f-string field, "..." % x, "...".format(x) -- unless the text only goes to a log call, an exception
+    message or a lookup key.  Each site gets a class:
+       stripped   the text passes through re.sub(<pattern naming IndirectObject>) (address removed)
+       primitive  the operand is a literal / number / text by construction (conversion, arithmetic, str method, numeric
+                  format spec, parameter or field annotated with a primitive type, ALL_CAPS constant, XML .text/.tag)
+       exception  str(e) of a caught exception (message text)
+       object     anything else: the repr of a library / file-like object could reach a result
+    -> [{file, func, line, src, cls}]"""
+    out = []
+    ret_ann = {}
+    for rel, tree in pkg.mods.items():
+        for f in ast.walk(tree):
+            if isinstance(f, (ast.FunctionDef, ast.AsyncFunctionDef)):
+                ret_ann.setdefault(f.name, []).append(ast.unparse(f.returns) if f.returns is not None else "?")
+    for rel, tree in pkg.mods.items():
+        if "/extractors/" not in rel:
+            continue
+        field_ann = {}
+        for c in ast.walk(tree):
+            if isinstance(c, ast.ClassDef):
+                for st in c.body:
+                    if isinstance(st, ast.AnnAssign) and isinstance(st.target, ast.Name):
+                        field_ann[st.target.id] = ast.unparse(st.annotation)
+
+        def skip_context(n):
+            """log / raise / lookup context of the text produced at n"""
+            cur, child = getattr(n, "_parent", None), n
+            while cur is not None:
+                if isinstance(cur, ast.Raise):
+                    return "raise"
+                if isinstance(cur, ast.Call):
+                    f = cur.func
+                    fname = f.attr if isinstance(f, ast.Attribute) else f.id if isinstance(f, ast.Name) else ""
+                    if isinstance(f, ast.Attribute) and isinstance(f.value, ast.Name) and f.value.id in ("logger", "logging", "log", "warnings"):
+                        return "log"
+                    if fname.endswith(("Error", "Exception", "Warning")):
+                        return "raise"
+                    if fname in LOOKUP_FUNCS and child is not f:
+                        return "lookup"
+                if isinstance(cur, ast.Subscript) and cur.slice is child:
+                    return "lookup"
+                if isinstance(cur, ast.Compare):
+                    return "lookup"
+                if isinstance(cur, (ast.stmt,)):
+                    return None
+                child, cur = cur, getattr(cur, "_parent", None)
+            return None
+
+        def stripped(n):
+            cur = getattr(n, "_parent", None)
+            while cur is not None and not isinstance(cur, ast.stmt):
+                if isinstance(cur, ast.Call) and isinstance(cur.func, ast.Attribute) and cur.func.attr in ("sub", "subn") and cur.args \
+                        and isinstance(cur.args[0], ast.Constant) and "IndirectObject" in str(cur.args[0].value):
+                    return True
+                cur = getattr(cur, "_parent", None)
+            return False
+
+        def prim(e, fn, depth=0):
+            if isinstance(e, ast.Constant) or isinstance(e, ast.JoinedStr):
+                return True
+            if isinstance(e, (ast.BinOp, ast.UnaryOp, ast.Compare, ast.BoolOp)):
+                if isinstance(e, ast.BoolOp):
+                    return all(prim(v, fn, depth) for v in e.values)
+                if isinstance(e, ast.BinOp) and isinstance(e.op, ast.Add):
+                    return prim(e.left, fn, depth) or prim(e.right, fn, depth)     # str + x / num + x: both same kind or TypeError
+                return True
+            if isinstance(e, ast.IfExp):
+                return prim(e.body, fn, depth) and prim(e.orelse, fn, depth)
+            if isinstance(e, ast.Call):
+                f = e.func
+                if isinstance(f, ast.Name) and f.id in PRIM_CALLS:
+                    return f.id not in ("str", "repr") or all(prim(a, fn, depth) for a in e.args)
+                if isinstance(f, ast.Attribute) and f.attr in STR_METHODS:
+                    return True
+                fname = f.id if isinstance(f, ast.Name) else f.attr if isinstance(f, ast.Attribute) else ""
+                rets = ret_ann.get(fname)
+                return bool(rets) and all(r in PRIM_ANNOT for r in rets)       # package function annotated -> str / int ...
+            if isinstance(e, ast.Subscript):
+                if isinstance(e.value, ast.Name) and (e.value.id.isupper() or e.value.id.lstrip("_").isupper()):
+                    return True                                                  # TABLE[key] of a module constant
+                return isinstance(e.value, ast.Call) and prim(e.value, fn, depth)
+            if isinstance(e, ast.Attribute):
+                if e.attr in ("text", "tag", "tail", "name", "filename", "suffix", "stem") or e.attr.isupper():
+                    return True
+                if isinstance(e.value, ast.Name) and e.value.id in ("self", "cls") and field_ann.get(e.attr) in PRIM_ANNOT:
+                    return True
+                return field_ann.get(e.attr) in PRIM_ANNOT
+            if isinstance(e, ast.Name):
+                if e.id.isupper() or e.id.lstrip("_").isupper():
+                    return True
+                if fn is None or depth > 2:
+                    return False
+                for a in fn.args.posonlyargs + fn.args.args + fn.args.kwonlyargs:
+                    if a.arg == e.id:
+                        return a.annotation is not None and ast.unparse(a.annotation) in PRIM_ANNOT
+                vals = []
+                for m in ast.walk(fn):
+                    if isinstance(m, ast.Assign) and any(isinstance(t, ast.Name) and t.id == e.id for t in m.targets):
+                        vals.append(m.value)
+                    elif isinstance(m, ast.AnnAssign) and isinstance(m.target, ast.Name) and m.target.id == e.id:
+                        if ast.unparse(m.annotation) in PRIM_ANNOT:
+                            return True
+                        if m.value is not None:
+                            vals.append(m.value)
+                    elif isinstance(m, (ast.For, ast.comprehension)) and any(isinstance(t, ast.Name) and t.id == e.id for t in ast.walk(m.target)):
+                        it = m.iter
+                        if isinstance(it, ast.Call) and isinstance(it.func, ast.Name) and it.func.id in ("range",):
+                            return True
+                        if isinstance(it, ast.Call) and isinstance(it.func, ast.Name) and it.func.id == "enumerate" \
+                                and isinstance(m.target, ast.Tuple) and m.target.elts and isinstance(m.target.elts[0], ast.Name) \
+                                and m.target.elts[0].id == e.id:
+                            return True
+                        return False
+                return bool(vals) and all(prim(v, fn, depth + 1) for v in vals)
+            return False
+
+        for n in ast.walk(tree):
+            operands = []
+            if isinstance(n, ast.Call) and isinstance(n.func, ast.Name) and n.func.id in ("str", "repr", "format") and n.args:
+                operands = [(n, n.args[0], None)]
+            elif isinstance(n, ast.FormattedValue):
+                spec = ast.unparse(n.format_spec) if n.format_spec is not None else ""
+                operands = [(n, n.value, spec)]
+            elif isinstance(n, ast.BinOp) and isinstance(n.op, ast.Mod) and isinstance(n.left, ast.Constant) and isinstance(n.left.value, str):
+                els = n.right.elts if isinstance(n.right, ast.Tuple) else [n.right]
+                operands = [(n, x, None) for x in els]
+            elif isinstance(n, ast.Call) and isinstance(n.func, ast.Attribute) and n.func.attr == "format" \
+                    and isinstance(n.func.value, ast.Constant) and isinstance(n.func.value.value, str):
+                operands = [(n, x, None) for x in n.args] + [(n, k.value, None) for k in n.keywords]
+            for site, opnd, spec in operands:
+                if skip_context(site):
+                    continue
+                fn = pkg.enclosing(site, (ast.FunctionDef, ast.AsyncFunctionDef))
+                exc_names = set()
+                if fn is not None:
+                    exc_names = {h.name for h in ast.walk(fn) if isinstance(h, ast.ExceptHandler) and h.name}
+                if stripped(site):
+                    cls = "stripped"
+                elif isinstance(opnd, ast.Name) and opnd.id in exc_names:
+                    cls = "exception"
+                elif (spec and any(c in spec for c in "dfxXeEgGn%")) or prim(opnd, fn):
+                    cls = "primitive"
+                else:
+                    cls = "object"
+                out.append({"file": rel, "func": pkg.func_name(site), "line": site.lineno, "src": ast.unparse(opnd)[:60], "cls": cls})
+    return out
+
+
+# Reviewed `object`-class stringification sites (file suffix, function, operand): the operand's static type is not
+# visible to the classifier, its RUNTIME values are text / numbers / dates / paths (reason given).  A site that is not
+# listed here (new code, or a site that lost its stripping regex) leaves C06_stringify_sites_classified open.
+_R_CELL = "spreadsheet / table cell value: str, int, float, bool, datetime or None from xlrd / openpyxl / own lists"
+_R_TEXT = "text taken from XML attributes / element text / own tables (str or None)"
+_R_PATH = "pathlib.Path built from the `path` argument"
+_R_MAIL = "mail header / body text from the email library (str)"
+_R_PDFN = "pypdf NameObject / TextStringObject / text (str subclasses); arrays and indirect references are resolved or stripped before"
+REVIEWED_OBJECT_SITES = {
+    ("archive_extractor.py", "read_archive", "archive_type.split('.')[-1]"): "str method result",
+    ("data_types.py", "FileMetadataInterface.populate_from_path", "p.resolve()"): _R_PATH,
+    ("data_types.py", "FileMetadataInterface.populate_from_path", "p"): _R_PATH,
+    ("data_types.py", "FileMetadataInterface.populate_from_path", "p.parent.resolve()"): _R_PATH,
+    ("data_types.py", "FileMetadataInterface.populate_from_path", "p.parent"): _R_PATH,
+    ("data_types.py", "EmailContent.iterate_supported_attachments", "file_type"): "enum / str naming the routed file type",
+    ("data_types.py", "XlsContent.iterate_units", "cell"): _R_CELL,
+    ("data_types.py", "OdtContent.iterate_units", "cell"): _R_CELL,
+    ("html_extractor.py", "_HtmlTextExtractor._extract_headings", "level"): "int heading level",
+    ("mail/eml_email_extractor.py", "_read_eml_format", "mail.text_plain"): _R_MAIL,
+    ("mail/eml_email_extractor.py", "_read_eml_format", "mail.text_html"): _R_MAIL,
+    ("mail/mbox_email_extractor.py", "get_body_content", "part.get('Content-Disposition', '')"): _R_MAIL,
+    ("mail/eml_email_extractor.py", "_read_eml_format", "mail.message.get('Date', '')"): _R_MAIL + " or email.header.Header (str() = decoded text)",
+    ("ms_legacy/xls_extractor.py", "_get_cell_values", "value"): _R_CELL,
+    ("ms_legacy/xls_extractor.py", "_get_cell_value", "value"): _R_CELL,
+    ("ms_modern/pptx_extractor.py", "_PptxContext._load_xml_files", "slide_name"): _R_TEXT,
+    ("ms_modern/pptx_extractor.py", "_process_slide_from_context", "latex"): _R_TEXT,
+    ("ms_modern/pptx_extractor.py", "_process_slide_from_context", "comment.author"): _R_TEXT,
+    ("ms_modern/pptx_extractor.py", "_process_slide_from_context", "comment.date"): _R_TEXT,
+    ("ms_modern/pptx_extractor.py", "_PptxContext._compute_slide_order", "target"): _R_TEXT,
+    ("ms_modern/pptx_extractor.py", "_process_slide_from_context", "description"): _R_TEXT,
+    ("ms_modern/xlsx_extractor.py", "_format_value_for_display", "value"): _R_CELL,
+    ("ms_modern/xlsx_extractor.py", "_get_cell_value", "cell_value"): _R_CELL,
+    ("ms_modern/xlsx_extractor.py", "_read_sheet_data", "val"): _R_CELL,
+    ("ms_modern/xlsx_extractor.py", "_read_content_from_workbook", "sheet_name"): _R_TEXT,
+    ("pdf/pdf_extractor.py", "_extract_image", "filter_type"): _R_PDFN + " (generated PDFs: /Filter as name, array, indirect reference)",
+    ("pdf/pdf_extractor.py", "_normalize_text", "value"): _R_PDFN,
+    ("pdf/pdf_extractor.py", "_patch_font_digit_map", "digit"): "int",
+    ("pdf/pdf_extractor.py", "_extract_image", "name"): _R_PDFN + " (XObject dictionary key)",
+    ("pdf/pdf_extractor.py", "_extract_page_mcid_data", "actual_text"): _R_PDFN,
+    ("pdf/pdf_extractor.py", "_TableExtractor._build_row", "last_row[0]"): _R_CELL,
+    ("pdf/pdf_extractor.py", "_TableExtractor._score_tables", "cell"): _R_CELL,
+    ("plain_extractor.py", "_detect_and_decode", "best_match"): "charset_normalizer match: str() is the decoded text",
+    ("serialization.py", "_serialize_for_json", "key"): "dict key of a result dataclass field (str / int)",
+    ("util/ole_text.py", "decode_ole_text", "value"): "OLE property value: str / bytes decoded before / int",
+    ("util/omml_to_latex.py", "process_element", "left"): _R_TEXT,
+    ("util/omml_to_latex.py", "process_element", "right"): _R_TEXT,
+    ("util/omml_to_latex.py", "process_element", "latex_fname"): _R_TEXT,
+    ("util/omml_to_latex.py", "process_element", "latex_accent"): _R_TEXT,
+}
+ADDRESS_RE = __import__("re").compile(r"\bat 0x[0-9A-Fa-f]{6,}\b|<[\w.]+ object at |IndirectObject\(\d+, \d+, \d+\)")
+
+
+def inventory_strip_patterns(pkg: Pkg):
+    """(pattern, replacement) of every regex in the package whose pattern constant names IndirectObject; a compiled
+    pattern is paired with the replacement of the .sub() calls on the name it is bound to ("?" if not found)"""
+    out = []
+    for rel, tree in pkg.mods.items():
+        for n in ast.walk(tree):
+            if not (isinstance(n, ast.Call) and isinstance(n.func, ast.Attribute) and n.args
+                    and isinstance(n.args[0], ast.Constant) and isinstance(n.args[0].value, str) and "IndirectObject" in n.args[0].value):
+                continue
+            pat = n.args[0].value
+            if n.func.attr in ("sub", "subn"):
+                rep = n.args[1].value if len(n.args) > 1 and isinstance(n.args[1], ast.Constant) else "?"
+                out.append((pat, str(rep)))
+            elif n.func.attr == "compile":
+                par = getattr(n, "_parent", None)
+                nm = par.targets[0].id if isinstance(par, ast.Assign) and isinstance(par.targets[0], ast.Name) else None
+                reps = [c.args[0].value for c in ast.walk(tree) if isinstance(c, ast.Call) and isinstance(c.func, ast.Attribute)
+                        and c.func.attr in ("sub", "subn") and isinstance(c.func.value, ast.Name) and c.func.value.id == nm
+                        and c.args and isinstance(c.args[0], ast.Constant)]
+                out += [(pat, str(r)) for r in reps] or [(pat, "?")]
+    return out
+
+
+def classify_stringify(sites):
+    for x in sites:
+        key = (x["file"].split("/extractors/")[-1], x["func"], x["src"])
+        if x["cls"] == "object" and key in REVIEWED_OBJECT_SITES:
+            x["cls"] = "reviewed"
+    return sites
+
+
+def inventory_mime_reads(pkg: Pkg):
+    """reads of the process-global MIME database (mimetypes.guess_type & co. on the module, not on a private
+    MimeTypes instance) outside router.py (whose use is covered by C07: a known extension decides)"""
+    out = []
+    for rel, tree in pkg.mods.items():
+        if rel.endswith("/router.py"):
+            continue
+        names = set()
+        for n in ast.walk(tree):
+            if isinstance(n, ast.Import):
+                names |= {a.asname or a.name for a in n.names if a.name == "mimetypes"}
+        for n in ast.walk(tree):
+            if isinstance(n, ast.Attribute) and isinstance(n.value, ast.Name) and n.value.id in names and isinstance(n.ctx, ast.Load) \
+                    and (n.attr.startswith("guess_") or n.attr in ("types_map", "common_types", "suffix_map", "encodings_map", "read_mime_types")):
+                out.append({"file": rel, "func": pkg.func_name(n).split(".")[-1], "line": n.lineno, "what": "mimetypes." + n.attr})
+            if isinstance(n, ast.ImportFrom) and n.module == "mimetypes":
+                for a in n.names:
+                    if a.name.startswith("guess_") or a.name in ("types_map", "common_types"):
+                        out.append({"file": rel, "func": "<import>", "line": n.lineno, "what": "from mimetypes import " + a.name})
+    return out
+
+
 def stateful_modules(pkg: Pkg):
     """Modules of the package that hold state across calls: lru_cache / cache decorators, `global` statements,
     module-level instances of own classes, module-level containers mutated inside functions.  -> {rel: [reasons]}"""
@@ -854,6 +1129,7 @@ def gen_sites(ctx, pkg):
     stream, modes = inventory_stream(pkg)
     writes = inventory_observer_writes(pkg)
     gw = inventory_global_writes(pkg)
+    sf = classify_stringify(inventory_stringify(pkg))
     z = lambda n: f"({n})%Z"
     t = "(* GENERATED on every check run by tools/props/c06.py from the ast of the repo under test - do not edit. *)\n"
     t += "From Coq Require Import ZArith List.\nFrom S2T Require Import Lib.PyStr C06.Lib C06.Model.\nImport ListNotations.\n\n"
@@ -872,7 +1148,19 @@ def gen_sites(ctx, pkg):
     t += "\n(* writes to process-global state of the STANDARD LIBRARY (registries, environment, interpreter settings) *)\n"
     t += "Definition stdlib_global_writes : list (str * str * Z * str) := [\n" + ";\n".join(
         f"  ({coq_str(x['file'])}, {coq_str(x['func'])}, {z(x['line'])}, {coq_str(x['what'])})" for x in gw if x["kind"] == "stdlib") + "\n].\n"
+    kname = {"stripped": "KStripped", "exception": "KException", "reviewed": "KReviewed", "object": "KObject"}
+    t += "\n(* places where an object is turned into text that may reach a result (primitive operands omitted: %d sites) *)\n" % sum(
+        1 for x in sf if x["cls"] == "primitive")
+    t += "Definition stringify_sites : list (str * str * str * sclass) := [\n" + ";\n".join(
+        f"  ({coq_str(x['file'])}, {coq_str(x['func'])}, {coq_str(x['src'])}, {kname[x['cls']]})" for x in sf if x["cls"] != "primitive") + "\n].\n"
+    pats = inventory_strip_patterns(pkg)
+    t += "\n(* (pattern, replacement) of every re.sub / re.compile whose pattern names IndirectObject *)\n"
+    t += "Definition strip_patterns : list (str * str) := [\n" + ";\n".join(
+        f"  ({coq_str(a)}, {coq_str(b)})" for a, b in pats) + "\n].\n"
     ctx.gen_write("Gen/C06Sites.v", t)
+    ctx.extra["strip_patterns"] = pats
+    ctx.extra["stringify_sites"] = {k: sum(1 for x in sf if x["cls"] == k) for k in ("primitive", "stripped", "exception", "reviewed", "object")}
+    ctx.extra["stringify_unclassified"] = [f"{x['file']}:{x['line']} {x['func']} {x['src']}" for x in sf if x["cls"] == "object"]
     ctx.extra["global_write_sites"] = [f"{x['kind']}: {x['file']}:{x['line']} {x['func']} {x['what']}" for x in gw]
     return sets, nd, stream, modes, writes
 
@@ -1183,10 +1471,18 @@ def gen_pdf(rng, j=0):
         cs = {"name": b"/DeviceRGB", "icc": b"[/ICCBased " + ref + b"]",
               "indexed": b"[/Indexed /DeviceRGB 1 " + ref + b"]",
               "sep": b"[/Separation /Spot /DeviceRGB " + ref + b"]"}[form]
+        # /Filter as a name, an array, an indirect reference to a name, an array holding such a reference, or absent
+        fobj = nxt
+        nxt += 1
+        fg = (0, 3, 1)[i % 3]
+        objs[fobj] = (fg, b"/ASCIIHexDecode")
+        fref = f"{fobj} {fg} R".encode()
+        filt = (b"", b" /Filter /ASCIIHexDecode", b" /Filter [/ASCIIHexDecode]", b" /Filter " + fref, b" /Filter [" + fref + b"]")[i % 5]
+        payload = b"ff0000>" if filt else b"\xff\x00\x00"
         extra = (b"", b" /Alt [" + ref + b"]", b" /Alt (a picture)", b" /Title " + ref, b" /TU << /K " + ref + b" >>",
                  b" /Caption [/X " + ref + b"]")[i % 6]
-        objs[img] = (0, stream(b"/Type /XObject /Subtype /Image /Width 1 /Height 1 /BitsPerComponent 8 /ColorSpace " + cs + extra,
-                               b"\xff\x00\x00"))
+        objs[img] = (0, stream(b"/Type /XObject /Subtype /Image /Width 1 /Height 1 /BitsPerComponent 8 /ColorSpace " + cs + extra + filt,
+                               payload))
         xobj.append(f"/Im{k} {img} 0 R".encode())
     content = b"BT /F1 12 Tf 20 100 Td (Generated page " + str(rng.randint(1, 99)).encode() + b") Tj ET " + \
         b" ".join(b"q 10 0 0 10 %d 20 cm /Im%d Do Q" % (20 * k, k) for k in range(n_img))
@@ -1615,8 +1911,14 @@ def leaf_digests(j):
                 go(v, path + "[]")
         else:
             acc.setdefault(path, hashlib.sha256()).update((repr(x) + "\x00").encode("utf-8", "surrogatepass"))
+            if isinstance(x, str) and ADDRESS_RE.search(x):
+                leaks.setdefault(path, x[:120])
+    leaks = {}
     go(j, "")
-    return {k: h.hexdigest()[:16] for k, h in acc.items()}
+    d = {k: h.hexdigest()[:16] for k, h in acc.items()}
+    if leaks:
+        d["__address_like__"] = json.dumps(leaks, sort_keys=True)
+    return d
 
 
 HOSTILE_TYPE = "application/x-c06-hostile"
@@ -1716,10 +2018,43 @@ def diff_paths(a, b):
     if a["types"] != b["types"] or len(a["leaves"]) != len(b["leaves"]):
         return ["<result types/count>"]
     for t, la, lb in zip(a["types"], a["leaves"], b["leaves"]):
-        for k in sorted(set(la) | set(lb)):
+        for k in sorted((set(la) | set(lb)) - {"__address_like__"}):
             if la.get(k) != lb.get(k):
                 out.append(t + k)
     return sorted(set(out))
+
+
+def strip_correspondence(ctx, gen_root):
+    """Tie of Part F: for every image of every generated PDF, str() of the raw /ColorSpace value as pypdf prints it
+    (recorded from the real library, with the harness's own reader address inside) goes through the Coq model of the
+    stripping pattern and must give exactly what the implementation put into PdfImage.color_space."""
+    from pypdf import PdfReader
+    from sharepoint2text.parsing.router import get_extractor
+    cases, infos = [], []
+    for f in sorted((gen_root / "gen").glob("*.pdf")):
+        data = f.read_bytes()
+        try:
+            impl = list(get_extractor(str(f))(io.BytesIO(data), str(f)))[0]
+            by_name = {i.name: i for pg in impl.pages for i in pg.images}
+            for page in PdfReader(io.BytesIO(data)).pages:
+                xo = page["/Resources"]["/XObject"]
+                for name in xo:
+                    raw = str(xo[name].get("/ColorSpace", "unknown"))
+                    got = by_name[str(name)].color_space
+                    if all(ord(c) < 128 for c in raw + got):
+                        cases.append(f"({coq_str(raw)}, {coq_str(got)})")
+                        infos.append((f.name, str(name), raw, got))
+        except Exception as e:  # noqa
+            ctx.count("strip-corr:skipped")
+    if not cases:
+        ctx.obligation("correspondence:color_space==strip model", False, "no generated PDF image could be compared")
+        return
+    pre = "From S2T Require Import Lib.PyStr C06.Lib C06.Model C06.Corr.\n"
+    ok, failing, log = coq_eval_shards(ctx, "strip", pre, "corr_strip", cases, shard=300, ty="str * str")
+    ctx.traces += len(cases)
+    ctx.obligation("correspondence:PdfImage.color_space==strip_ids(str(raw /ColorSpace)) on generated PDFs", ok and not failing,
+                   (f"{len(failing)} of {len(cases)} disagree, first: {infos[failing[0]] if failing else ''} " + log[:300]))
+    ctx.extra["strip_corr_cases"] = len(cases)
 
 
 def stream_oracle(ctx):
@@ -1787,6 +2122,11 @@ def run(ctx):
         "oracles: Python set iteration order = arbitrary permutation (universally quantified); zipfile/olefile/openpyxl/pypdf "
         "access to the input stream = arbitrary sequence of read-only stream operations (universally quantified)",
         "validated only (testing): determinism of third-party parsers across processes / hash seeds / time on the fixtures",
+        "reviewed list REVIEWED_OBJECT_SITES (tools/props/c06.py): stringification sites whose operand type the ast classifier "
+        "cannot see; trusted to hold text / numbers / dates / paths at run time, checked dynamically by the address-token scan of "
+        "every result and by the repeat / cross-process comparisons",
+        "not modelled: what str()/repr() of third-party objects other than pypdf IndirectObject looks like; CPython's "
+        "mimetypes suffix rule (oracle ext_of); import order effects inside third-party packages",
     ]
     ctx.assumptions += ["CPython 3.12 str.isspace set (re-derived from the interpreter on every run)",
                         "libraries given a stream opened for reading perform no write on it (checked by getvalue() on fixtures)"]
@@ -1813,6 +2153,13 @@ def run(ctx):
     ctx.obligation("interpreter-whitespace-set == C06.Lib.py_space",
                    [c for c in range(0x110000) if chr(c).isspace()] == PY_SPACE, "str.isspace set differs from the model")
 
+    mime_reads = inventory_mime_reads(pkg)
+    ctx.extra["mime_db_reads"] = [f"{x['file']}:{x['line']} {x['func']} {x['what']}" for x in mime_reads]
+    for x in mime_reads:
+        ctx.finding(f"mime-db-read:{x['file']}:{x['func']}",
+                    f"{x['func']} ({x['file']}:{x['line']}) reads the process-global MIME database ({x['what']}): the result depends on "
+                    "the host's mime.types and on mimetypes.add_type calls anywhere in the process (C06_content_type_global_db_refuted)",
+                    {"site": x, "see": "mime-db-dependent:* findings of this run for concrete inputs"})
     mark("inventories")
     # ---- proofs
     ctx.prove("C06/Props.v", ["C06/Proofs.vo"], expected=[
@@ -1821,12 +2168,15 @@ def run(ctx):
         "C06_seed_independent_fixed", "C06_neutral_uses_seed_independent", "C06_ordered_use_refuted",
         "C06_input_untouched_serialize",
         "C06_input_untouched_validate_zip", "C06_readonly_ops_keep_buffer", "C06_history_independent",
-        "C06_history_dependent_refuted"])
+        "C06_history_dependent_refuted", "C06_content_type_global_db_refuted", "C06_content_type_private_db_independent",
+        "C06_strip_reader_id_independent", "C06_strip_generation_zero_only_refuted"])
     ctx.prove("C06/Inst.v", ["Gen/C06Sites.vo", "C06/Corr.vo"], expected=["C06_set_sites_neutral"])
     ctx.prove("C06/InstNd.v", ["Gen/C06Sites.vo"], expected=["C06_nd_sites_no_result_sink"])
     ctx.prove("C06/InstPure.v", ["Gen/C06Sites.vo"], expected=["C06_input_stream_readonly"])
     ctx.prove("C06/InstObs.v", ["Gen/C06Sites.vo"], expected=["C06_observers_do_not_store"])
     ctx.prove("C06/InstGlobal.v", ["Gen/C06Sites.vo"], expected=["C06_no_stdlib_global_writes"])
+    ctx.prove("C06/InstStr.v", ["Gen/C06Sites.vo"], expected=["C06_stringify_sites_classified",
+                                                                "C06_strip_patterns_are_the_modelled_one"])
 
     mark("proofs")
     # ---- D1: OdtContent.iterate_units vs the heap model
@@ -1982,6 +2332,10 @@ def run(ctx):
                         ctx.finding(f"nondeterministic:{path}", f"{path} differs between processes ({mode}: {base_seed} vs {seed}; "
                                     f"{origin} {rel})", {"input": rel, "bytes": input_bytes(rel), "path": path, "mode": mode,
                                                          "hashseeds": [base_seed, seed]})
+            for t_, lv in zip(r0["types"], r0["leaves"]):
+                for path, sample in json.loads(lv.get("__address_like__", "{}")).items():
+                    ctx.finding(f"address-like:{t_}{path}", f"{t_}{path} contains the repr of a live object / a memory address: {sample!r} "
+                                f"({origin} {rel})", {"input": rel, "bytes": input_bytes(rel), "path": path, "sample": sample})
             ctx.case(("seeds", rel, r0["digest"]), len(results) >= 2,
                      kind=("generated" if rel.startswith("@1/") else "fixture") + "-x-seeds:" + (r0["types"][0] if r0["types"] else "raises"))
         for ext, res in solo:
@@ -2027,6 +2381,7 @@ def run(ctx):
                                     {"input": rel, "bytes": input_bytes(rel), "path": path, "mime_database": kind})
         ctx.extra["inputs_per_worker"] = len(base)
         ctx.extra["hash_seeds"] = [s for s, _ in results]
+    strip_correspondence(ctx, gen_root)
     td_obj.cleanup()
 
     mark("mime-workers")
@@ -2051,7 +2406,10 @@ META = {
                   "observer sequence leaves to_json() and every observer value unchanged; set-iteration order cannot reach a "
                   "result at any inventoried site classified member/len/sorted/any-all (and does at list(set): refutation), "
                   "sorted(set) is seed independent; _bytesio_to_base64 and validate_zip_bytesio restore position and content for "
-                  "every read-only library behaviour. Validated only: cross-process / cross-seed / repeated extraction of all "
+                  "every read-only library behaviour; no write to standard-library global state => the result is independent of "
+                  "the process history; the IndirectObject stripping pattern removes id(reader) for every object number, generation "
+                  "and address; a content type looked up in a private table is independent of host database and history (as found: "
+                  "refuted). Validated only: cross-process / cross-seed / repeated extraction of all "
                   "fixtures (third-party parsers), input getvalue() unchanged.",
     "level_note": "Trusted: Coq kernel+VM; the ast inventories and their fail-closed classification; the hand-written heap model "
                   "(tied by differential runs); third-party libraries are oracles (set order, stream access) or tested only.",
